@@ -113,6 +113,22 @@ def run(prop, tier):
         projects.append({"origin": "grammar", "expr": e, "files": [("entry.ts", src)] + EXTRA_FILES,
                          "cyclic": False})
     ngram = len(projects)
+    # (i') whole projects: every cell of export form x import form x use form, and the special entry files (TsWhole.tla)
+    wcfg = os.path.join(vlib.WORK, tag, "MC_Whole.cfg")
+    vlib.write_cfg(wcfg, spec="WSpec", invariants=["EmitInv"])
+    wr = vlib.run_tlc(wcfg, os.path.join(vlib.VERIF, "spec/mc/MC_Whole.tla"), workers=4, heap="2g", tag="whole")
+    if not wr["ok"]:
+        raise ToolError("whole-project generation failed:\n" + wr["tail"])
+    wholes = vlib.tagged_lines(wr["lines"], "WHOLE")
+    if len(wholes) != wr["distinct"]:
+        raise ToolError(f"whole-project generation: {len(wholes)} lines for {wr['distinct']} states")
+    states += wr["states"]
+    distinct += wr["distinct"]
+    for w in wholes:
+        projects.append({"origin": "whole", "cell": {k: w[k] for k in ("kind", "ex", "im", "us", "sp")},
+                         "files": [tuple(f) for f in w["files"]], "cyclic": False})
+    nwhole = len(wholes)
+    ngram = len(projects)
     # (ii) corpus and its mutations
     corp = corpus.programs()
     for c in corp:
@@ -147,7 +163,7 @@ def run(prop, tier):
         seen.add(key)
         projects.append({"origin": "mutation", "name": c["name"], "op": m["op"], "pos": m["pos"], "files": files,
                          "cyclic": False})
-    log(f"[C04] {ngram} grammar programs, {len(corp)} corpus programs, {len(projects) - ngram - len(corp)} mutants")
+    log(f"[C04] {ngram - nwhole} grammar programs, {nwhole} whole projects, {len(corp)} corpus programs, {len(projects) - ngram - len(corp)} mutants")
     for p in projects:
         p["cyclic"] = has_alias_cycle(p["files"])
     reqs = [vlib.compile_req(i, p["files"]) for i, p in enumerate(projects)]
@@ -169,7 +185,7 @@ def run(prop, tier):
                 dgn.setdefault(k, 0)
         if r["outcome"] == "code" and o is not None:
             rec["load"] = "ok" if o["load"] in ("ok", "noroot") else o["load"]
-            rec["names_ok"] = sorted(o.get("names", [])) == sorted(r.get("names", []))
+            rec["names_ok"] = set(o.get("names", [])) == set(r.get("names", []))   # a parser for every requested name (a name may be requested twice)
             if rec["load"] != "ok":
                 rec["msg"] = o.get("loadmsg", "")
         recs.append(rec)
@@ -200,7 +216,8 @@ def run(prop, tier):
         if j["class"] in dev_to_k:
             known_hits.append((dev_to_k[j["class"]]["id"], dev_to_k[j["class"]]["what"]))
             continue
-        sig = (j["kind"], rec["msg"][:60], p.get("expr", p.get("op")))
+        cell = p.get("cell")
+        sig = (j["kind"], rec["msg"][:60], p.get("expr", p.get("op")) if cell is None else (cell["sp"], cell["ex"], cell["us"]))
         if sig in seen:
             continue
         seen.add(sig)
@@ -208,14 +225,14 @@ def run(prop, tier):
                    "compile": {k: v for k, v in comp[rec["id"]].items() if k != "code"}, "expr": p.get("expr"),
                    "mutation": {"of": p.get("name"), "op": p.get("op"), "pos": p.get("pos")} if p["origin"] == "mutation" else None}
         path = vlib.write_replay(prop, f"{tier}-{len(violations)}", payload)
-        violations.append((path, f"{j['kind']} [{p['origin']} {p.get('expr') or p.get('name')}] {rec['msg'][:120]}"))
+        violations.append((path, f"{j['kind']} [{p['origin']} {p.get('expr') or p.get('name') or json.dumps(p.get('cell'))}] {rec['msg'][:120]}"))
     oc = {}
     for r in recs:
         oc[r["outcome"]] = oc.get(r["outcome"], 0) + 1
     cov = {"states": distinct + tstates, "transitions": states + consumed, "traces_validated_against_impl": consumed,
            "samples": [{"expr": projects[0]["expr"], "outcome": recs[0]["outcome"]},
                        {"mutant_of": projects[-1].get("name"), "op": projects[-1].get("op"), "outcome": recs[-1]["outcome"]}],
-           "grammar_programs": ngram, "corpus_programs": len(corp), "mutants": len(projects) - ngram - len(corp),
+           "grammar_programs": ngram - nwhole, "whole_projects": nwhole, "corpus_programs": len(corp), "mutants": len(projects) - ngram - len(corp),
            "outcomes": oc, "known_findings_hit": sorted({k for k, _ in known_hits}), "binding_selftest": neg,
            "exhaustive": tier == "quick",
            "rule": "TsGrammar.tla: every leaf x every production (depth 1; thorough: random depth 3); MC_Mutate.tla: every (corpus program, "
